@@ -444,10 +444,19 @@ class observing:
 _SKIP_FIELDS = ('automations', 'divmod', 'rake')
 
 
+_PRIVATE_COMPARED = ('_pots', '_sub_pots')
+
+
 def snapshot(state, deck_order=True):
+    """Every public dataclass field (plus the frozen pots of the settlement).
+    Other private fields are not part of "the state" any property speaks
+    about: a correctly invalidated cache may legitimately differ between two
+    runs that read different things."""
     d = {}
     for f in dataclasses.fields(state):
         if f.name in _SKIP_FIELDS:
+            continue
+        if f.name.startswith('_') and f.name not in _PRIVATE_COMPARED:
             continue
         d[f.name] = copy.deepcopy(getattr(state, f.name))
     if not deck_order:
@@ -843,7 +852,12 @@ class Interp:
         player = None
         if (a // 6) % 3 == 1:
             player = self._pick(idx, a // 18)
-        if m == 0 or m == 5 or self.cfg.get('single_runout'):
+        if self.cfg.get('force_runouts') and not self.cfg.get('single_runout') \
+                and a % 8:
+            # the table habitually runs it twice (or three times): most
+            # selectors ask for the same count, so that it is agreed upon
+            cnt = min(self.cfg['force_runouts'], cap)
+        elif m == 0 or m == 5 or self.cfg.get('single_runout'):
             cnt = None
         else:
             cnt = min(m if m <= 3 else 2, cap)
